@@ -79,15 +79,8 @@ class Collection(NadaType):
             return {
                 "NTuple": {
                     "types": [
-                        (
-                            ty.to_mir()
-                            if isinstance(ty, (NadaType, ArrayType, TupleType))
-                            else ty.class_to_mir()
-                        )
-                        for ty in [
-                            type(value)
-                            for value in self.values  # pylint: disable=E1101
-                        ]
+                        value.to_mir()
+                        for value in self.values  # pylint: disable=E1101
                     ]
                 }
             }
@@ -95,15 +88,8 @@ class Collection(NadaType):
             return {
                 "Object": {
                     "types": {
-                        name: (
-                            ty.to_mir()
-                            if isinstance(ty, (NadaType, ArrayType, TupleType))
-                            else ty.class_to_mir()
-                        )
-                        for name, ty in [
-                            (name, type(value))
-                            for name, value in self.values.items()  # pylint: disable=E1101
-                        ]
+                        name: value.to_mir()
+                        for name, value in self.values.items()  # pylint: disable=E1101
                     }
                 }
             }
